@@ -13,10 +13,22 @@ NOTE = ("Trusted: z3, CPython, the proxy layer symx/core.py (guarded by per-path
         "holds for every value inside the bounds printed in the evidence file, says nothing outside them.")
 
 # property id -> (level text, design section)
+def _t(what):
+    return ("Bounded symbolic model checking through the real public API: " + what + " Every value inside the stated "
+            "bounds is covered by a solver verdict per explored path; shapes/configurations are a concrete case split listed in the evidence.")
+
+
 CLAIMED = {
-    "C18": ("Bounded symbolic model checking of pad / cutoff / scale / set_channel through the real Sequence API: "
-            "all wait lengths, arguments, pitches, channels and velocities inside the bounds are decided by z3 per "
-            "path; shapes (<=3 notes) are a concrete case split.", "4 C18"),
+    "C07": (_t("normalise on every message sequence up to the length bound with symbolic waits, pitches, channels, signatures and probe tick."), "4 C07"),
+    "C08": (_t("split with symbolic capacities, waits, pitches, channels and probe tick; piano-roll, duration, event and aliasing clauses."), "4 C08"),
+    "C10": (_t("Bar construction with symbolic waits (shorter/equal/longer than capacity) and symbolic signature events."), "4 C10"),
+    "C11": (_t("type discipline of tick values (proxy sort tracking Int vs Real) after every operation of the alphabet."), "4 C11"),
+    "C14": (_t("Sequence.transpose / Bar.transpose with symbolic pitches and intervals, key signatures checked against an independent tonic table."), "4 C14"),
+    "C17": (_t("equals on identical, re-ordered, re-represented and singly perturbed pairs under all 16 flag combinations."), "4 C17"),
+    "C18": (_t("pad / cutoff / scale / set_channel with symbolic waits and arguments."), "4 C18"),
+    "C20": ("Symbolic execution of transpose_key and the CircleOfFifths functions with UNBOUNDED symbolic integers: the code only "
+            "branches on residues mod 12, every residue path is decided by z3 for all integers of that class, against an independent "
+            "tonic/fifths reference.", "4 C20"),
 }
 
 PENDING = "check not built yet in this revision (solver-based harness under construction; see DESIGN.md section 4)"
